@@ -282,6 +282,12 @@ func phiLeaves(v ssa.Value) []ssa.Value {
 		}
 		seen[v] = true
 		if p, ok := v.(*ssa.Phi); ok {
+			// a phi that a later test pins to one operand wherever it is used (the result variable of an inlined
+			// helper) stands for that operand
+			if rv := core.ResolvedPhi(p); rv != nil {
+				rec(rv)
+				return
+			}
 			for _, e := range p.Edges {
 				rec(e)
 			}
